@@ -78,6 +78,24 @@ impl C01 {
 }
 
 impl HistMonitor for C01 {
+    fn before(&mut self, s: &mut Session, op: &Op, ctx: &mut Ctx) {
+        // attributing what a merge adds needs the real edges to be the ones the call log implies
+        if let (Op::Merge { .. }, false) = (op, self.abandoned) {
+            let same = s.m.verts.iter().all(|(v, x)| {
+                crate::rec::guarded(|| s.g.kids(*v)).is_ok_and(|mut a| {
+                    let mut b = x.edges.clone();
+                    a.sort();
+                    b.sort();
+                    a == b
+                })
+            });
+            if !same {
+                self.abandoned = true;
+                ctx.c.inc("c01.history-abandoned-edges-differ-before-merge");
+            }
+        }
+    }
+
     fn after(&mut self, s: &mut Session, op: &Op, o: &mut Outcome, ctx: &mut Ctx) -> Option<String> {
         if self.abandoned {
             return None;
